@@ -17,11 +17,12 @@ def run(ctx):
     if thorough:
         for k in range(5):
             ctx.seed += 1000
-            ctx.corr(hx, ["hist", "--nev", "600", "--npr", "300", "--nno", "400", "--conc", "60"], cases_name="cases%d.v" % k)
+            ctx.corr(hx, ["hist", "--nev", "600", "--npr", "300", "--nno", "400", "--conc", "60", "--barrier", "8000", "--barrier-ms", "8000"], cases_name="cases%d.v" % k)
         ctx.seed -= 5000
     else:
-        ctx.corr(hx, ["hist", "--nev", "300", "--npr", "150", "--nno", "200", "--conc", "30"])
+        ctx.corr(hx, ["hist", "--nev", "300", "--npr", "150", "--nno", "200", "--conc", "30", "--barrier", "3000", "--barrier-ms", "4000"])
     ctx.assumptions += [
+        "WithMaxTriggerCount: the model's count test is ONE step that increments the counter and compares the new value with the limit (Model.start_trigger for an event, step_frame on FWalk _ _ _ (PAt n) for a hook), mirroring the single `triggerCount.Add(1) > maxTriggerCount` of options.go; C15_max_trigger_count_event / _hook / _quiescent are proved through invariants (EInv, HInv) preserved by exactly that step and do not hold for a load followed by a separate add. The sequential lockstep cannot observe whether the code's test-and-increment is one atomic operation: that is tested on the code by the barrier rounds (k = 2..4 persistent workers released into Trigger within nanoseconds of each other on fresh events/hooks with limits 1..3 at event level, hook level, both, and through LinkTo; exact-count oracle = min(n, #triggers)); this is a high-probability test, it needs >= 2 processors (skipped and counted in hist as barrier:skipped-single-processor otherwise) and is cut at a wall-clock cap on an oversubscribed machine (barrier:stopped-at-wall-limit)",
         "lockstep histories are sequential with re-entrant callbacks (operations performed inside a callback are steps of other threads for the model); real parallelism only in the free-running runs judged by the Go oracle (exact invocation counts)",
         "valuenotifier lockstep: Wait is held at the verif yield point (hook commit 1d19fe5) and released only when a select case is ready; interleavings inside Deregister are covered by the theorems, not by the correspondence",
         "pre-trigger functions (WithPreTriggerFunc) and the generated EventN arities other than Event1 are not modelled (same template code)",
